@@ -134,7 +134,7 @@ func (w *World) StreamSession(name string, maxMsgs int64, ackFrac, nackFrac floa
 		if idleCheck && len(pending) < capacity && !s.Wild && !s.Decoy {
 			for _, d := range s.Dels {
 				if d.State == Out && !d.dlEligible() && d.why(must, lo, hi) == "" {
-					p, sig := propForMiss(d)
+					p, sig := propForMiss(d, hi)
 					w.violate(p, "stream:"+sig, "stream on %s#%d idle at %s with %d/%d outstanding did not send %s%s%s", name, s.Gen, ts(hi), len(pending), capacity, d, sameKey(d), w.rowDiag(d))
 					w.siblingBlame(d, "stream:"+sig, fmt.Sprintf("stream on %s did not send %s", name, d))
 					d.Lost = true
